@@ -12,9 +12,14 @@ PROP = dict(
         # (specs/TLSDirective.tla, notes/TLSDirective.md): invariants + one CASE per file, one job
         dict(module="TLSDirective", cfg=dict(quick="TLSDirective_quick.cfg", thorough="TLSDirective_thorough.cfg"), emit=True, workers=8,
              coverage=True, timeout=dict(quick=300, thorough=1200)),
+        # extension: which certificate a client is shown - `tls cert key` / `load dir` / self_signed, certmagic's cache and
+        # name index, selection by SNI and client offer, reload (specs/CertSelect.tla, notes/CertSelect.md): invariants + cases, one job
+        dict(module="CertSelect", cfg=dict(quick="CertSelect_quick.cfg", thorough="CertSelect_thorough.cfg"), emit=True, workers=8,
+             coverage=True, timeout=dict(quick=300, thorough=1200)),
     ],
     go=[dict(pkg="c06", test="TestC06", timeout=dict(quick=600, thorough=3600)),
-        dict(pkg="cx06tlsdir", test="TestCx06TLSDir", timeout=dict(quick=300, thorough=1200))],
+        dict(pkg="cx06tlsdir", test="TestCx06TLSDir", timeout=dict(quick=300, thorough=1200)),
+        dict(pkg="cx06certsel", test="TestCx06CertSel", timeout=dict(quick=300, thorough=1200))],
     exhaustive=dict(quick=False, thorough=False),
     technique="TLA+ spec TLSGroup.tla (MakeTLSConfig, getConfig, negotiation, certificate selection, client authentication, vhost routing, strict SNI as actions; "
               "the statement's clauses as invariants) model-checked by TLC; the per-site-set tables replayed with real TLS handshakes and requests against casket.Start instances",
